@@ -435,7 +435,7 @@ class BatchResponse(AbstractResponse):
         except KeyError as e:
             raise DeserializationError(f"required field {e} not found") from e
 
-        return cls(*(Response.from_json(item) for item in json_data))
+        return cls(*(Response.from_json(item, error_cls=error_cls) for item in json_data))
 
     def __init__(self, *responses: Response, error: MaybeSet[JsonRpcError] = UNSET, strict: bool = True):
         self._responses: List[Response] = []
